@@ -211,6 +211,31 @@ Proof.
   all: try (intro; discriminate). all: destruct b; cbn in H; try discriminate; auto; lia.
 Qed.
 
+(* ---------- the resumed start state ---------- *)
+
+Lemma Inv_resumed e : e <> 0 -> Inv (resumed_start e).
+Proof.
+  intro He. unfold Inv, resumed_start. cbn. repeat split; try discriminate.
+  intros _. unfold min_app_epoch. cbn. lia.
+Qed.
+
+(* under the guard of Resume (local epoch <> 0) the connection made from an accepted State, whatever is done with
+   it, never emits application data in epoch 0 or unprotected *)
+Theorem resumed_appdata_protected e ops b em :
+  e <> 0 -> In (b, em) (run (resumed_start e) ops) -> e_kind em = KApp ->
+  e_enc em = true /\ 1 <= e_epoch em.
+Proof.
+  intros He Hin Hk. pose proof (run_allowed ops (resumed_start e) b em (Inv_resumed e He) Hin) as H.
+  cbn [resumed_start s_ver] in H. unfold allowed in H. rewrite Hk in H. unfold min_app_epoch in H. cbn [is13] in H.
+  destruct b; cbn in H; try discriminate. split; [|lia]. destruct (e_enc em); [reflexivity|]. cbn in H. lia.
+Qed.
+
+(* ... and the guard is needed: the connection made from a State of local epoch 0 writes its first payload in an
+   epoch-0 record (the null cipher: in clear) *)
+Theorem resumed_guard_needed :
+  run (resumed_start 0) [OWrite] = [(true, mkE KApp 0 true)].
+Proof. vm_compute. reflexivity. Qed.
+
 Theorem finished_always_protected v ops b e :
   In (b, e) (run (sinit v) ops) -> e_kind e = KHs 20 ->
   e_enc e = true /\ 1 <= e_epoch e /\ (v = V13 -> e_epoch e = 2).
